@@ -119,6 +119,7 @@ func opsString(ops []decOp) string {
 func runAndCheck(c *fw.Ctx, stream string, fast bool, data []byte, ops []decOp) {
 	c.Journal(fmt.Sprintf("C03 %s fast=%v %s | %s", stream, fast, trunc(hexs(data), 1500), trunc(opsString(ops), 2000)))
 	rq, rp, results, offsets := runDecProgram(fast, data, ops)
+	reportHeld(c, stream)
 	c.ModelCmp(stream, rq, rp, stripAlloc)
 	out := oracleDec(c, stream, fast, data, ops, results, offsets)
 	nOK := 0
